@@ -763,7 +763,11 @@ impl ObjectStoreMetadataClient {
                     .entry(bucket)
                     .or_insert_with(Vec::new)
                     .push(path.clone());
-                bucket += Self::NANOS_PER_HOUR;
+                // the last bucket of the i64 range has no successor
+                bucket = match bucket.checked_add(Self::NANOS_PER_HOUR) {
+                    Some(next) => next,
+                    None => break,
+                };
             }
         }
 
@@ -812,7 +816,11 @@ impl ObjectStoreMetadataClient {
                     .entry(bucket)
                     .or_default()
                     .push(path.to_string());
-                bucket += Self::NANOS_PER_HOUR;
+                // the last bucket of the i64 range has no successor
+                bucket = match bucket.checked_add(Self::NANOS_PER_HOUR) {
+                    Some(next) => next,
+                    None => break,
+                };
             }
             catalog.version = 2;
 
@@ -1385,7 +1393,11 @@ impl MetadataClient for ObjectStoreMetadataClient {
                     .entry(bucket)
                     .or_default()
                     .push(target.path.clone());
-                bucket += Self::NANOS_PER_HOUR;
+                // the last bucket of the i64 range has no successor
+                bucket = match bucket.checked_add(Self::NANOS_PER_HOUR) {
+                    Some(next) => next,
+                    None => break,
+                };
             }
             catalog.version = 2;
 
